@@ -1,7 +1,9 @@
 /-
 C12 — distribution functions over `Arith α`.
 
-  TDist.CDF        tdist.go:19-29      ½ at 0, 1 − ½·I(ν/(ν+x²), ν/2, ½) for x > 0, reflection for x < 0
+  TDist.CDF        tdist.go:19-38      ½ at 0; for x > 0: ½ + ½·I(x²/(ν+x²), ½, ν/2) when x² < ν (commit
+                                       5ce8769, keeps the precision of x²), else 1 − ½·I(ν/(ν+x²), ν/2, ½);
+                                       reflection 1 − CDF(−x) for x < 0
   NormalDist.CDF   normaldist.go:47-49 erfc(−(x−μ)/(σ√2))/2
   InvCDF           dist.go:109-175     generic inverse: bracketing by doubling, then bisectBool
   bisectBool       alg.go:66-88
@@ -19,7 +21,9 @@ def half : α := ofFrac 1 2
 
 /-- the branch `x > 0` of `TDist.CDF` -/
 def tcdfPos (I : α → α → α → α) (ν x : α) : α :=
-  sub (ofNat 1) (mul half (I (div ν (add ν (mul x x))) (div ν (ofNat 2)) half))
+  let x2 := mul x x
+  if lt x2 ν then add half (mul half (I (div x2 (add ν x2)) half (div ν (ofNat 2))))
+  else sub (ofNat 1) (mul half (I (div ν (add ν x2)) (div ν (ofNat 2)) half))
 
 /-- `TDist{ν}.CDF(x)`; `none` = NaN -/
 def tcdf (I : α → α → α → α) (ν x : α) : Option α :=
